@@ -79,3 +79,19 @@ Theorem C14_node_getbypath_spec :
     fst (run hash ops (mk_value hash v)) = fst (spec_run ops (snd v)).
 Proof. exact look_run_from_doc. Qed.
 Print Assumptions C14_node_getbypath_spec.
+
+(* preorder with a visitor that answers VisitOPSkip to OnArrayBegin / OnObjectBegin: whatever containers it skips (skip k = the
+   k-th container announced), on the token stream of any document the traverser emits exactly the flattening in which each skipped
+   container contributes its Begin and End only - nothing of its inside, everything after it intact, no error on a valid document.
+   Tokens carry no white space: the event stream is independent of insignificant white space by construction of the model; that
+   the real traverser agrees on pretty-printed text is checked by the runs (white space after { [ , : at random). *)
+Theorem C14_preorder_skip_spec :
+  forall (skip : nat -> bool) t evs k', flatten_skip skip t 0 = Some (evs, k') -> preorder_skip skip (tokens_of t) = Some evs.
+Proof. exact preorder_skip_spec. Qed.
+Print Assumptions C14_preorder_skip_spec.
+
+Example C14_preorder_skip_nonvacuous :
+  (* {"a":[null,{}],"b":"\n"} with the visitor skipping the array (container 1): the object inside it is never announced *)
+  flatten_skip (skip_of [1%nat]) (TObj [([92; 117; 48; 48; 54; 49]%N, TArr [TNull; TObj []]); ([98]%N, TStr [92; 110]%N)]) 0 =
+  Some ([PObjBegin; PKey [97]%N; PArrBegin; PArrEnd; PKey [98]%N; PStr [10]%N; PObjEnd], 2%nat).
+Proof. vm_compute. reflexivity. Qed.
